@@ -942,8 +942,8 @@ def gen_trait(rng, name, prefix, max_methods=5, allow_child=True, tindex=0):
         # (otherwise rustc's lint fires on the user's own trait, not on generated code)
         plain_arg = lambda a: isinstance(a, (AVal, ARef, AMutRef, ARawPtr)) and getattr(a, "t", "") != "char"
         plain_ret = isinstance(ret, RUnit) or (isinstance(ret, RVal) and ret.t != "char") or (isinstance(ret, RBorrow) and ret.kind in ("one", "pod"))
-        if m.extern_c and not (all(plain_arg(a) for a in m.args) and plain_ret):
-            m.extern_c = False
+        if m.extern_c and not (all(plain_arg(a) for a in m.args) and plain_ret and recv in ("ref", "mut")):
+            m.extern_c = False  # (a by-value `self` of a Rust-layout implementor is not C-safe either)
         # provided methods (default bodies), optionally further bounded, optionally overridden
         if isinstance(ret, (RUnit, RVal, ROpt, RRes)) and recv != "own" and not any(isinstance(a, (AInto, ACallback, AIter)) for a in args) and rng.random() < 0.22:
             m.default_body = True
